@@ -19,7 +19,18 @@ MOVE = '1.2.840.10008.5.1.4.1.2.1.2'
 GET = '1.2.840.10008.5.1.4.1.2.1.3'
 MWL = '1.2.840.10008.5.1.4.31'
 COMMIT = '1.2.840.10008.1.20.1'
-SUBCLS = {0: 'SubSuccess', 0xB000: 'SubWarning', 0xA700: 'SubFailure', 0xC123: 'SubFailure', 0xB007: 'SubWarning'}
+# what a destination may answer to a C-STORE sub-operation: success, the three warnings, the service's failure ranges at
+# both ends, and the general failure codes of PS3.7 Annex C (processing failure, class not supported, not authorized,
+# duplicate invocation, unrecognized / mistyped operation, invalid instance): all of them just count as failed
+SUBCLS = {0: 'SubSuccess', 0xB000: 'SubWarning', 0xB006: 'SubWarning', 0xB007: 'SubWarning',
+          0xA700: 'SubFailure', 0xA7FF: 'SubFailure', 0xA900: 'SubFailure', 0xA9FF: 'SubFailure', 0xC000: 'SubFailure',
+          0xC123: 'SubFailure', 0xCFFF: 'SubFailure', 0x0110: 'SubFailure', 0x0122: 'SubFailure', 0x0124: 'SubFailure',
+          0x0210: 'SubFailure', 0x0211: 'SubFailure', 0x0212: 'SubFailure', 0x0117: 'SubFailure'}
+
+
+def sub_code(rng):
+    cls = rng.choice(['SubSuccess', 'SubSuccess', 'SubWarning', 'SubFailure', 'SubFailure'])
+    return rng.choice([c for c, k in SUBCLS.items() if k == cls])
 
 
 def reassemble(gen):
@@ -106,7 +117,7 @@ def run_provider(kind, rng):
         data = sd.encode_ds(sd.small_dataset(0))
         msg.data_set = data
         n = rng.choice([0, 1, 2, 4])
-        codes = [rng.choice(list(SUBCLS)) for _ in range(n)]
+        codes = [sub_code(rng) for _ in range(n)]
         subs = [SUBCLS[c] for c in codes]
         lab.sub_outcomes = codes
         dsets = []
@@ -574,7 +585,7 @@ def move_case(rng):
     msg.move_destination = 'DEST'
     msg.data_set = sd.encode_ds(sd.small_dataset(0))
     n = rng.choice([0, 0, 1, 2, 3, 6])
-    codes = [rng.choice(list(SUBCLS)) for _ in range(n)]
+    codes = [sub_code(rng) for _ in range(n)]
     lab.sub_outcomes = codes
     dsets = []
     insts = []
